@@ -170,9 +170,72 @@ pub fn run(a: &Args) {
                 }
                 out.count(&format!("dso.synthetic.kind{kind}.entries{}", n.min(3)));
                 out.case(l.s(), r.s(), true);
+                // the same through the model of the auxiliary-value resolution: what the caller supplied (count, address) together
+                // with what /proc/<pid>/auxv reports
+                let mut l2 = Line::new("c18_dso_auxv"); l2.u(dinfo.program_header_count).u(dinfo.program_header_address).u(dinfo.linux_gate_address).u(dinfo.entry_address);
+                l2.u(1).vec(&w.auxv).u(1).u(chain_base).vec(&pages);
+                out.case(l2.s(), r.s(), true); out.count("auxv.resolution_modelled");
             }
         }
     }
+    // ---- the target's OWN auxiliary vector is unusual (set with prctl): values that occur twice (the first counts), a zero
+    // address before the real one, no program-header values at all; with and without a value supplied by the caller
+    for mode in 1u32..=4 { for supplied in [false, true] {
+        if supplied && mode != 2 { continue; }
+        let scen = Scenario { threads: vec![], lines: vec!["chain 3 0".into(), format!("auxv {mode}")] };
+        let target = match Target::spawn(&scen, &work) { Ok(t) => t, Err(e) => { out.notes.push(format!("spawn failed: {e}")); continue; } };
+        if target.facts.get("auxvset").map(|v| v.as_str()) != Some(&mode.to_string()[..]) { out.notes.push("the target could not replace its auxiliary vector".into()); continue; }
+        let chain_base = target.fact_hex("chain");
+        // mode 2 with a supplied program-header address: the caller's value beats the file's first (real) one
+        let direct = if supplied { Some(DirectAuxvDumpInfo { program_header_count: 2, program_header_address: chain_base, linux_gate_address: 0, entry_address: 0 }) } else { None };
+        let (pid, d2) = (target.pid, direct.clone());
+        let child = run_forked(5000, move || {
+            let mut w = MinidumpWriter::new(pid, pid);
+            if let Some(d) = d2 { w.set_direct_auxv_dump_info(d); }
+            let mut dest = std::io::Cursor::new(Vec::new());
+            let (res, world, _) = with_hooks(pid, pid, true, None, || quiet_catch(std::panic::AssertUnwindSafe(|| w.dump(&mut dest).map_err(|e| format!("{e:?}")))));
+            let mut s = String::new();
+            match res { Ok(Ok(img)) => { s.push_str("OK\n"); s.push_str(&img.iter().map(|b| format!("{b:02x}")).collect::<String>()); s.push('\n'); }
+                        Ok(Err(e)) => { s.push_str(&format!("ERR {}\n\n", e.replace('\n', " "))); } Err(p) => { s.push_str(&format!("PANIC {p}\n\n")); } }
+            if let Some(w) = world { s.push_str(&w.auxv.iter().map(|b| format!("{b:02x}")).collect::<String>()); s.push('\n'); }
+            s
+        });
+        unsafe { libc::kill(target.pid, libc::SIGCONT); }
+        let unhex = |h: &str| -> Vec<u8> { (0..h.len() / 2).map(|i| u8::from_str_radix(&h[2 * i..2 * i + 2], 16).unwrap_or(0)).collect() };
+        let text = match child { Ok(t) => t, Err(e) => { let mut l = Line::new("const"); l.u(0); out.case(l.s(), &format!("!dump did not return: {e} (auxv mode {mode})"), true); continue; } };
+        let mut it = text.split('\n');
+        let head = it.next().unwrap_or(""); let img = unhex(it.next().unwrap_or("")); let auxv = unhex(it.next().unwrap_or(""));
+        if !head.starts_with("OK") { let mut l = Line::new("const"); l.u(0); out.case(l.s(), &format!("!dump failed (auxv mode {mode}): {}", head.chars().take(300).collect::<String>()), true); continue; }
+        let d = match md::Dump::parse(&img) { Ok(d) => d, Err(e) => { let mut l = Line::new("const"); l.u(0); out.case(l.s(), &format!("!{e}"), true); continue; } };
+        // the raw stream is what the kernel reports
+        { let mut l = Line::new("const"); l.u(md::LINUX_AUXV as u64); digest_line(&mut l, &auxv); let mut r = Line::bare(); r.u(md::LINUX_AUXV as u64);
+          match d.stream(&img, md::LINUX_AUXV) { Some(Ok(b)) => digest_line(&mut r, b), _ => { r.0 = "!raw auxv stream absent".into(); } } out.case(l.s(), r.s(), true); }
+        let mut r = Line::bare();
+        match d.dso_debug(&img) {
+            Ok(Some(dd)) => { r.u(0).u(dd.version as u64).u(dd.brk).u(dd.ldbase).u(dd.dynamic).z(dd.dynamic_bytes.len()).z(dd.maps.len());
+                for m in &dd.maps { r.u(m.addr).u(m.ld); match &m.name { Ok(nm) => { r.z(nm.len()); for c in nm.bytes() { r.u(c as u64); } } Err(e) => { r.0 = format!("!link map name: {e}"); break; } } } }
+            Ok(None) => { r.u(1); }
+            Err(e) => { r.0 = format!("!{e}"); }
+        }
+        if mode == 2 && !supplied {
+            // the real values come first: the stream must list the target's real objects (independent walk from the first occurrences)
+            let w = World { auxv: auxv.clone(), ..Default::default() };
+            let mut l = Line::new("const"); let mut r2 = Line::bare();
+            match (real_chain(&w, target.pid), d.dso_debug(&img)) {
+                (Some((dynaddr, dynlen, es)), Ok(Some(dd))) => { l.u(dynaddr).u(dynlen).z(es.len()); for (a, n, ld) in &es { l.u(*a).u(*ld).vec(n.as_bytes()); }
+                    r2.u(dd.dynamic).z(dd.dynamic_bytes.len()).z(dd.maps.len()); for m in &dd.maps { r2.u(m.addr).u(m.ld); match &m.name { Ok(n) => { r2.vec(n.as_bytes()); } Err(e) => { r2.0 = format!("!link map name: {e}"); break; } } } }
+                (e, x) => { l.u(0); r2.0 = format!("!linker stream {:?} but independent walk {}", x.map(|v| v.is_some()), if e.is_some() { "succeeds" } else { "fails" }); } }
+            out.case(l.s(), r2.s(), true);
+        } else {
+            let mut l = Line::new("c18_dso_auxv");
+            match &direct { Some(di) => { l.u(di.program_header_count).u(di.program_header_address).u(di.linux_gate_address).u(di.entry_address); } None => { l.u(0).u(0).u(0).u(0); } }
+            l.u(1).vec(&auxv);
+            let pages = read_mem(target.pid, chain_base, 2 * 4096).unwrap_or_default();
+            l.u(1).u(chain_base).vec(&pages);
+            out.case(l.s(), r.s(), true);
+        }
+        out.count(&format!("auxv.replaced.mode{mode}{}", if supplied { ".with_supplied_value" } else { "" }));
+    } }
     out.assumptions.push("what the kernel reports = the harness's own reads of /proc/<pid>/{maps,auxv,cmdline,environ,limits,fd} taken in the same suspended window; uname(2) and /proc/cpuinfo read by the harness itself".into());
     out.finish(&a.out, "live targets with generated descriptor sets (file, directory, pipe, socket, eventfd), mappings of every permission combination, 0..2 extra threads; every other target carries a synthetic linker chain (0..5 entries; well-formed / cyclic / r_debug cut by the end of its mapping) reached through direct auxv values (AT_PHNUM 2, 100000 or overflowing): raw streams, memory-info list, handle descriptors, system information and the linker stream are compared with the harness's own view / the model; dumps run under a 5 s watchdog");
 }
